@@ -1,222 +1,6 @@
-import Cqos.Facts.Generated
-/-
-  Expectations about the regenerated fact tables (Cqos/Facts/Generated.lean is rewritten from
-  /repo's working tree on every check run).  Every theorem below is a statement about the
-  finite generated table, decided by evaluation in the kernel (`decide`): if the code's
-  goroutine structure, defer order, select cases or field-access discipline changes, this
-  module no longer compiles — a broken proof obligation of C19 / C20 (and C07's closing order,
-  C16's "every blocking select offers the stop cases").
--/
-namespace Cqos.Facts
-
-/-! ### C19: goroutines -/
-
-/-- exactly one `go main` per constructor, `HandlersQuantity` × `go handler` (inside a loop)
-    in the simplified disciplines, and nothing else -/
-def expectedSpawns : List (String × String × String × String × Bool) := [
-  ("v2/priority", "", "New", "dsc.main", false),
-  ("v2/priority/simple", "Discipline", "main", "dsc.handler", true),
-  ("priority", "", "New", "dsc.main", false),
-  ("priority", "", "NewSimple", "smpl.main", false),
-  ("priority", "Simple", "main", "smpl.handler", true),
-  ("priority", "Simple", "gracefulStop", "func() { defer close(done) smpl.priority.GracefulStop() }", false),
-  ("v2/join", "", "New", "dsc.main", false),
-  ("v2/join/unite", "", "New", "dsc.main", false),
-  ("join", "", "New", "dsc.main", false),
-  ("v2/limit", "", "New", "dsc.main", false)
-]
-
-theorem c19_spawn_table : spawns = expectedSpawns := by decide
-
-def defersOf (pkg typ fn : String) : List String :=
-  match defers.find? (fun r => r.1 == pkg && r.2.1 == typ && r.2.2.1 == fn) with
-  | some r => r.2.2.2
-  | none => []
-
-/-- the deferred calls of every `main`, in source order (they run in reverse): the
-    termination signal (closing `err` / `output`, `breaker.Complete`) is registered FIRST, so
-    it is the LAST thing a main goroutine does; nothing is closed before `loop` returns;
-    tickers are stopped; v1 Simple waits for its handlers (`wg.Wait`) before signalling and
-    stops the inner discipline before cancelling the handlers' context. -/
-theorem c19_main_defers :
-    defersOf "v2/priority" "Discipline" "main" = ["close(dsc.err)", "close(dsc.output)", "close(dsc.feedback)", "dsc.interrupter.Stop()"] ∧
-    defersOf "v2/priority" "Discipline" "loop" = ["dsc.waitZeroActual()"] ∧
-    defersOf "priority" "Discipline" "main" = ["dsc.breaker.Complete()", "dsc.graceful.Complete()", "close(dsc.err)", "close(dsc.inputAdds)", "close(dsc.inputRmvs)", "dsc.interrupter.Stop()"] ∧
-    defersOf "priority" "Discipline" "loop" = ["dsc.waitZeroActual()"] ∧
-    defersOf "priority" "Simple" "main" = ["smpl.breaker.Complete()", "smpl.graceful.Complete()", "close(smpl.err)", "close(smpl.output)", "close(smpl.feedback)", "smpl.wg.Wait()", "cancel()", "smpl.priority.Stop()"] ∧
-    defersOf "priority" "Simple" "handler" = ["smpl.wg.Done()"] ∧
-    defersOf "v2/join" "Discipline" "main" = ["close(dsc.output)", "close(dsc.release)"] ∧
-    defersOf "v2/join" "Discipline" "loop" = ["dsc.pass()", "ticker.Stop()"] ∧
-    defersOf "v2/join" "Discipline" "loopUntimeouted" = ["dsc.pass()"] ∧
-    defersOf "v2/join/unite" "Discipline" "main" = ["close(dsc.output)", "close(dsc.release)"] ∧
-    defersOf "v2/join/unite" "Discipline" "loop" = ["dsc.pass()", "ticker.Stop()"] ∧
-    defersOf "v2/join/unite" "Discipline" "loopUntimeouted" = ["dsc.pass()"] ∧
-    defersOf "join" "Discipline" "main" = ["dsc.breaker.Complete()", "close(dsc.output)"] ∧
-    defersOf "join" "Discipline" "loop" = ["dsc.pass()", "ticker.Stop()"] ∧
-    defersOf "join" "Discipline" "loopUntimeouted" = ["dsc.pass()"] ∧
-    defersOf "v2/limit" "Discipline" "main" = ["close(dsc.output)"] := by decide
-
-
-/-- what a goroutine still executes after one of its deferred calls `sig` has run: deferred
-    calls run in reverse registration order, after the body has returned -/
-def afterSignal (sig : String) (ds : List String) : List String :=
-  (ds.reverse.dropWhile (fun d => !(d == sig))).drop 1
-
-/-- general fact: a deferred call registered first (and only once) is the last thing the
-    goroutine ever executes -/
-theorem afterSignal_head (sig : String) (rest : List String) (h : sig ∉ rest) :
-    afterSignal sig (sig :: rest) = [] := by
-  unfold afterSignal
-  rw [List.reverse_cons]
-  have : List.dropWhile (fun d => !(d == sig)) (rest.reverse ++ [sig]) = [sig] := by
-    have hr : ∀ d ∈ rest.reverse, (fun d => !(d == sig)) d = true := by
-      intro d hd
-      have : d ∈ rest := List.mem_reverse.mp hd
-      have hne : d ≠ sig := fun e => h (e ▸ this)
-      simp [hne]
-    generalize rest.reverse = l at hr
-    induction l with
-    | nil => simp [List.dropWhile]
-    | cons a l ih =>
-      have ha := hr a (List.mem_cons_self ..)
-      simp only [List.cons_append, List.dropWhile_cons, ha, if_true]
-      exact ih (fun d hd => hr d (List.mem_cons_of_mem _ hd))
-  rw [this]; rfl
-
-/-- the termination signals the API waits on (`Err()`/`Output()` closed, `Stop` =
-    `breaker.Break(); … <-breaker.IsCompleted()`): after the signal the main goroutine of
-    every discipline executes nothing at all -/
-theorem c19_nothing_after_signal :
-    afterSignal "close(dsc.err)" (defersOf "v2/priority" "Discipline" "main") = [] ∧
-    afterSignal "dsc.breaker.Complete()" (defersOf "priority" "Discipline" "main") = [] ∧
-    afterSignal "smpl.breaker.Complete()" (defersOf "priority" "Simple" "main") = [] ∧
-    afterSignal "close(dsc.output)" (defersOf "v2/join" "Discipline" "main") = [] ∧
-    afterSignal "close(dsc.output)" (defersOf "v2/join/unite" "Discipline" "main") = [] ∧
-    afterSignal "dsc.breaker.Complete()" (defersOf "join" "Discipline" "main") = [] ∧
-    afterSignal "close(dsc.output)" (defersOf "v2/limit" "Discipline" "main") = [] ∧
-    -- v1 Simple: before the signal the handlers have been cancelled and waited for, and the
-    -- inner discipline stopped (execution order = reverse registration order)
-    (defersOf "priority" "Simple" "main").reverse.take 3 = ["smpl.priority.Stop()", "cancel()", "smpl.wg.Wait()"] := by
-  decide
-
-/-- the helper goroutine of v1 Simple.gracefulStop (repair of defect D4) signals `done` as its
-    last action, and gracefulStop does not return before `done`: either the select's `<-done`
-    case (the only returning case), or — after the stop cases — the inner discipline is stopped
-    and `<-done` is awaited as the last statement.  So the helper never outlives main. -/
-theorem c19_helper_joined :
-    spawners = [("priority", "Simple", "gracefulStop",
-      [("assign", "done"), ("go", "func() { defer close(done) smpl.priority.GracefulStop() }"), ("select", ""),
-       ("call", "smpl.priority.Stop()"), ("call", "<-done")])] ∧
-    selects.contains ("priority", "Simple", "gracefulStop",
-      [("<-done", true), ("<-smpl.breaker.IsBreaked()", false), ("<-smpl.opts.Ctx.Done()", false)]) = true := by
-  decide
-
-/-- the handler goroutines end when the discipline does: v2's handler is one `range` over the
-    discipline's output (closed by main), v1's handler returns on `ctx.Done()` in each of its
-    two selects (main cancels the context before `wg.Wait`) -/
-theorem c19_handlers_exit :
-    ranges.contains ("v2/priority/simple", "Discipline", "handler", "dsc.priority.Output()") = true ∧
-    ((selects.filter (fun r => r.1 == "priority" && r.2.1 == "Simple" && r.2.2.1 == "handler")).all
-      (fun r => r.2.2.2.contains ("<-ctx.Done()", true))) = true ∧
-    (selects.filter (fun r => r.1 == "priority" && r.2.1 == "Simple" && r.2.2.1 == "handler")).length = 2 := by
-  decide
-
-/-! ### C16: every select of the v1 disciplines that can block offers both stop cases -/
-
-def hasStopCases (cases : List (String × Bool)) : Bool :=
-  cases.contains ("<-dsc.breaker.IsBreaked()", true) && cases.contains ("<-dsc.opts.Ctx.Done()", true)
-
-/-- every `select` of v1 priority.Discipline and v1 join.Discipline has both stop cases, each
-    returning — except the two that cannot block: the graceful test (`default`) and the
-    `isStopped` test introduced by the repair of D3 (also `default`) -/
-theorem c16_selects_offer_stop :
-    ((selects.filter (fun r => (r.1 == "priority" && r.2.1 == "Discipline") || (r.1 == "join" && r.2.1 == "Discipline"))).all
-      (fun r => hasStopCases r.2.2.2 || r.2.2.2.contains ("default", false))) = true := by
-  decide
-
-
-/-! ### C10: the timeout is driven by one ticker per discipline -/
-
-def loopSelects (pkg : String) : List (List (String × Bool)) :=
-  (selects.filter (fun r => r.1 == pkg && r.2.1 == "Discipline" && r.2.2.1 == "loop")).map (·.2.2.2)
-
-/-- the timed loop of every batching discipline selects on ONE ticker (`<-ticker.C`, a case
-    that does not return) that is created outside the loop — it is stopped by a deferred call
-    of `loop` — so input arriving more often than the ticker period cannot keep the timeout
-    test from running (a fresh `time.After` per iteration could) -/
-theorem c10_one_ticker :
-    (loopSelects "v2/join").all (fun cs => cs.contains ("<-ticker.C", false)) = true ∧ (loopSelects "v2/join").length = 1 ∧
-    (loopSelects "v2/join/unite").all (fun cs => cs.contains ("<-ticker.C", false)) = true ∧ (loopSelects "v2/join/unite").length = 1 ∧
-    (loopSelects "join").all (fun cs => cs.contains ("<-ticker.C", false)) = true ∧ (loopSelects "join").length = 1 ∧
-    (defersOf "v2/join" "Discipline" "loop").contains "ticker.Stop()" = true ∧
-    (defersOf "v2/join/unite" "Discipline" "loop").contains "ticker.Stop()" = true ∧
-    (defersOf "join" "Discipline" "loop").contains "ticker.Stop()" = true := by decide
-
-/-! ### C20: confinement of the scheduler state -/
-
-abbrev MethodRow := String × Bool × List String × List String × List String
-
-def methodsOf (pkg typ : String) : List MethodRow :=
-  (methods.filter (fun r => r.1 == pkg && r.2.1 == typ)).map (fun r => r.2.2)
-
-def addNew (acc : List String) : List String → List String
-  | [] => acc
-  | x :: xs => if acc.contains x then addNew acc xs else addNew (acc ++ [x]) xs
-
-/-- methods reachable from `roots` through receiver-method calls (fuel-bounded closure) -/
-def reach (ms : List MethodRow) : Nat → List String → List String
-  | 0, acc => acc
-  | n + 1, acc =>
-    reach ms n (addNew acc ((ms.filter (fun m => acc.contains m.1)).flatMap (fun m => m.2.2.2.2)))
-
-def writtenBy (ms : List MethodRow) (fs : List String) : List String :=
-  addNew [] ((ms.filter (fun m => fs.contains m.1)).flatMap (fun m => m.2.2.1))
-
-def accessedBy (ms : List MethodRow) (fs : List String) : List String :=
-  addNew [] ((ms.filter (fun m => fs.contains m.1)).flatMap (fun m => m.2.2.1 ++ m.2.2.2.1))
-
-/-- exported methods of the type (the API other goroutines call) -/
-def apiRoots (ms : List MethodRow) : List String := (ms.filter (fun m => m.2.1)).map (·.1)
-
-/-- fields written by anything reachable from `main` are neither read nor written by anything
-    reachable from an exported method or from the extra goroutine roots (handlers) -/
-def confined (pkg typ : String) (extraRoots : List String) : Bool :=
-  let ms := methodsOf pkg typ
-  let mainSet := reach ms 12 ["main"]
-  let apiSet := reach ms 12 (apiRoots ms ++ extraRoots)
-  let w := writtenBy ms mainSet
-  let a := accessedBy ms apiSet
-  w.all (fun f => !a.contains f)
-
-theorem c20_confined :
-    confined "v2/priority" "Discipline" [] = true ∧
-    confined "priority" "Discipline" [] = true ∧
-    confined "priority" "Simple" ["handler"] = true ∧
-    confined "v2/priority/simple" "Discipline" ["handler"] = true ∧
-    confined "v2/join" "Discipline" [] = true ∧
-    confined "v2/join/unite" "Discipline" [] = true ∧
-    confined "join" "Discipline" [] = true ∧
-    confined "v2/limit" "Discipline" [] = true := by decide
-
-/-- non-vacuity of the confinement check: the main goroutine does write scheduler state, and
-    the API touches only channels -/
-theorem c20_main_writes :
-    writtenBy (methodsOf "v2/priority" "Discipline") (reach (methodsOf "v2/priority" "Discipline") 12 ["main"]) =
-      ["inputs", "actual", "tactic", "uncrowded", "useful"] ∧
-    accessedBy (methodsOf "v2/priority" "Discipline") (reach (methodsOf "v2/priority" "Discipline") 12 (apiRoots (methodsOf "v2/priority" "Discipline"))) =
-      ["output", "feedback", "err"] := by decide
-
-/-- every constructor starts its goroutine last: after the `go` statement only `return`
-    follows, so every constructor write happens-before the goroutine starts -/
-def afterGo : List (String × String) → Option (List (String × String))
-  | [] => none
-  | (k, _) :: rest => if k == "go" then some rest else afterGo rest
-
-def ctorOK (kinds : List (String × String)) : Bool :=
-  match afterGo kinds with
-  | none => true               -- no goroutine started here (v2 simple: started in main)
-  | some rest => rest.all (fun k => k.1 == "return")
-
-theorem c20_ctors : (ctors.all (fun r => ctorOK r.2.2)) = true := by decide
-
-end Cqos.Facts
+import Cqos.Facts.C08
+import Cqos.Facts.C10
+import Cqos.Facts.C16
+import Cqos.Facts.C17
+import Cqos.Facts.C19
+import Cqos.Facts.C20
